@@ -112,7 +112,10 @@ def run_property(prop, tier, only=None, quiet=False):
     os.makedirs(os.path.join(OUT, prop), exist_ok=True)
     # stale replay files of earlier runs
     for fn in os.listdir(os.path.join(OUT, prop)):
-        os.unlink(os.path.join(OUT, prop, fn))
+        try:
+            os.unlink(os.path.join(OUT, prop, fn))
+        except FileNotFoundError:
+            pass            # a concurrent run of the same check removed it first
     seen_known = set()
     for o in matched:
         if o['key'] in seen_known:
